@@ -74,6 +74,7 @@ def verify_split(items, item_t, done_t, segs, ctx):
 @st.composite
 def case_gen(draw):
     pool = draw(st.lists(st.one_of(keys.SPEC, keys.SPEC, keys.SPEC, st.tuples(st.just('nan'), st.integers(0, 1)).map(list)), min_size=1, max_size=4))
+    pool = keys.compatible(pool)
     m = draw(st.sampled_from([0, 1, 4, 8]))
     # predicate index sequence with long runs: (index, repeat)
     segs = draw(st.lists(st.tuples(st.integers(0, len(pool) - 1), st.integers(1, 4)), min_size=min(m, 3), max_size=8))
@@ -90,7 +91,7 @@ def case_gen(draw):
     post = draw(st.sampled_from([None, None, 'to_list', 'count']))
     none_at = draw(st.lists(st.integers(0, max(0, len(preds) - 1)), max_size=3, unique=True)) if draw(st.integers(0, 3)) == 0 else []
     return {'pool': pool, 'preds': preds, 'gk': gk, 'parent': parent, 'pspec': pspec, 'p': p, 'post': post,
-            'none_at': none_at, 'none_pred': draw(st.integers(0, 3))}
+            'none_at': none_at, 'none_pred': draw(st.integers(0, 3)), 'pf_form': draw(st.sampled_from(['plain', 'plain', 'default_arg']))}
 
 
 def check(case):
@@ -108,7 +109,14 @@ def check(case):
     clock, phead, head, tail = [0], [], [], []
     to_list_inner = p == [['to_list']]
     seg_ops = [drive.tap(head, clock)] + ([rs.data.to_list()] if to_list_inner else [rs.ops.map(vf)] + A.build_pipeline(p, A.Env()))
-    inner = [drive.tap(phead, clock), rs.data.split(pf, seg_ops)] + post_real
+    pform = case.get('pf_form', 'plain')
+    if pform == 'default_arg':
+        pred = lambda i, table=None: pf(i)              # one item at a time; the second parameter has a default and is never given
+    elif pform == 'method':
+        pred = {None: None}.get if False else (lambda i, default=None: pf(i))
+    else:
+        pred = pf
+    inner = [drive.tap(phead, clock), rs.data.split(pred, seg_ops)] + post_real
     if parent == 'none':
         ops = inner
     elif parent == 'group_by':
